@@ -10,7 +10,7 @@ from sa.emit import Alt, Elem, Opt, Rep, walk_elems
 from sa.flow import show, subterms
 from sa.model import AnalysisError, norm, parent, walk_no_nested
 
-from .common import alts, callers_of, commands, is_call, prov
+from .common import include_rules, alts, callers_of, commands, is_call, prov
 from .xmlcommon import documents, format_domain, writers
 from . import c05
 
@@ -413,6 +413,7 @@ def run(report, p):
             if "builtin:open" in tg:
                 r5.check(open_mode(p, c, r) == "rb", r, c, "the XML file is not opened in binary mode for parsing (the declared encoding must decide)")
 
+    include_rules(report, p, 'c16', ['R16.5'], 'a hash date read from a manifest must keep its offset until it is written again')
     report.not_decided += ["value equality for arbitrary Unicode at run time", "lxml's escaping and parsing (trusted)", "modification dates (written, deliberately not parsed back)"]
 
 
